@@ -69,11 +69,45 @@ fn nosync_then_sync(ctx: &mut Ctx, cfg: &Cfg, data: &[u8]) {
     }
 }
 
+/// A full flush requested when nothing is pending (the previous call already flushed everything)
+/// must still cut the history: the data after it repeats the data before it, and the tail has to
+/// decode on its own.
+fn idle_full_flush(ctx: &mut Ctx, cfg: &Cfg, a: &[u8], b: &[u8], first: u8) {
+    let id = ctx.id();
+    let mut data = a.to_vec(); data.extend_from_slice(b);
+    let replay = format!("IDLEFULL {} first={} split={} in={}", cfg.describe(), first, a.len(), hex(&data));
+    ctx.eval(fnv(&data) ^ first as u64 ^ 0x1d1e);
+    ctx.count("idle_full_cases");
+    let mut c = cfg.make();
+    let mut out = vec![0u8; data.len() * 2 + 4000];
+    let mut n = 0;
+    let (st, i, o) = compress(&mut c, a, &mut out[n..], flush_of(first));
+    if st != TDEFLStatus::Okay || i != a.len() { ctx.violation(id, "status", format!("first call: {:?} consumed {} of {}", st, i, a.len()), replay); return; }
+    n += o;
+    let (st, _, o) = compress(&mut c, &[], &mut out[n..], TDEFLFlush::Full);
+    if st != TDEFLStatus::Okay { ctx.violation(id, "status", format!("idle full flush: {:?}", st), replay); return; }
+    n += o;
+    let cut = n;
+    let (st, i, o) = compress(&mut c, b, &mut out[n..], TDEFLFlush::Finish);
+    if st != TDEFLStatus::Done || i != b.len() { ctx.violation(id, "status", format!("finish call: {:?} consumed {} of {}", st, i, b.len()), replay); return; }
+    n += o; out.truncate(n);
+    ctx.count("tails");
+    ctx.line(&format!("TAIL id={} rp=IDLEFULL;first={};split={};inkey=full {} tail={} expect={} full={}", id, first, a.len(), cfg.describe(), hex(&out[cut..]), hex(b), hex(&data)));
+    ctx.line(&format!("ENC id={} rp=IDLEFULL;first={};split={} checks=rt modes=- {} in={} comp={}", id, first, a.len(), cfg.describe(), hex(&data), hex(&out)));
+}
+
 pub fn run(ctx: &mut Ctx) {
     if let Some(lines) = ctx.replay_lines.clone() {
         for l in lines {
             let (tag, rest) = l.split_once(' ').unwrap_or(("", ""));
             let kv = crate::kv(rest);
+            if tag == "IDLEFULL" {
+                let cfg = Cfg { level: kv["level"].parse().unwrap(), strategy: kv["strategy"].parse().unwrap(), zlib: kv["fmt"] == "1", wb: kv["wb"].parse().unwrap() };
+                let data = crate::tx::unhex(&kv["in"]);
+                let k: usize = kv["split"].parse().unwrap();
+                idle_full_flush(ctx, &cfg, &data[..k.min(data.len())], &data[k.min(data.len())..], kv["first"].parse().unwrap());
+                continue;
+            }
             if tag != "FLUSH" && tag != "NOSYNC" { continue; }
             let cfg = Cfg { level: kv["level"].parse().unwrap(), strategy: kv["strategy"].parse().unwrap(), zlib: kv["fmt"] == "1", wb: kv["wb"].parse().unwrap() };
             let data = crate::tx::unhex(&kv["in"]);
@@ -97,5 +131,16 @@ pub fn run(ctx: &mut Ctx) {
         let len = ctx.rng.range(0, 40000);
         let data = plain::gen(&mut ctx.rng, kind, len);
         nosync_then_sync(ctx, &cfg, &data);
+    }
+    // idle full flush: flush, then Full with nothing pending, then data that repeats the earlier data
+    for k in 0..(60 * ctx.scale) {
+        let cfg = if k < 22 { Cfg { level: (k % 11) as u8, strategy: 0, zlib: k % 2 == 0, wb: 15 } } else { Cfg::random(&mut ctx.rng) };
+        let kind = *ctx.rng.pick(plain::KINDS);
+        let len = ctx.rng.range(40, 20000);
+        let a = plain::gen(&mut ctx.rng, kind, len);
+        let take = ctx.rng.range(20, a.len() + 1).min(a.len());
+        let b = a[a.len() - take..].to_vec();
+        let first = *ctx.rng.pick(&[1u8, 2, 2, 3, 5, 6, 7, 0]);
+        idle_full_flush(ctx, &cfg, &a, &b, first);
     }
 }
